@@ -6,7 +6,9 @@ open DV DV.C03
 def showPair (p : Pair) : String :=
   s!"{p.g}:{p.l.loc}:{p.l.attr}:{if p.l.pub then 1 else 0}:{if p.l.valid then 1 else 0}"
 
-def showObs : Obs → String
+/-- `s` = the set the observation was made on (needed to print `?` for table cells whose local number is carried by
+several stored pairs: which of them the table keeps is not part of the property) -/
+def showObs (s : ISet) : Obs → String
   | .ok => "ok"
   | .none_ => "none"
   | .skip => "skip"
@@ -19,7 +21,12 @@ def showObs : Obs → String
   | .state .ground => "G"
   | .state .resize => "R"
   | .dump l => showList (l.map showPair)
-  | .table t => s!"{t.length}:" ++ showList (t.map fun c => match c with | none => "-" | some p => showPair p)
+  | .table t =>
+    let cell (i : Nat) (c : Option Pair) : String :=
+      match c with
+      | none => "-"
+      | some p => if (s.loc.filter fun q => q.l.loc == i).length > 1 then "?" else showPair p
+    s!"{t.length}:" ++ showList ((List.range t.length).zipWith cell t)
 
 def parseOp (s : String) : Option Op :=
   match tokens s with
@@ -58,7 +65,7 @@ def runOps : ISet → List Op → List String → Option (List String)
     if op = .endResize ∧ closesOutside s then none
     else
       let (s', o) := step s op
-      runOps s' ops (showObs o :: acc)
+      runOps s' ops (showObs s o :: acc)
 
 def handle (line : String) : String :=
   match line.splitOn " :" with
